@@ -1103,7 +1103,7 @@ impl Work {
 impl Work {
     /// Degenerate inputs: the shapes ordinary corpora do not contain.
     fn tiny_item(&self, ctx: &mut Ctx, f: &mut dyn FnMut(&mut Ctx, &Eval)) {
-        let progs: [&str; 31] = [
+        let progs: [&str; 36] = [
             "",
             "\n",
             "\n\n\n",
@@ -1135,6 +1135,12 @@ impl Work {
             "type D<T... = ()> = nil",
             "type E<T... = ...number> = nil",
             "type F<T...> = (T...) -> ...any",
+            // an asserted type in parentheses before `<` (fix 768aaf5)
+            "local a = x :: (T) < y",
+            "local g = a + -b :: (M.T) < c",
+            "return f(x :: (<G>() -> G) < y, z :: (A | B) < w)",
+            "return x :: (T) --[[c]] < y",
+            "local k = aaaaaaaaaaaaaaaaaaaaaaaaaaaaaaaaaaaaaaaaaaaaaaaaaaaaaaaaaaaaaaaaaaaaaaaaaaaaaaaaaaaaaaaaaaaaaaaaaaaaaaaaaaaaaaaaaaaaaa :: (T) < bbbbbbbbbbbbbbbbbbbbbbbbbbbbbbbbbb",
         ];
         // small programs under require sorting
         let sorted_progs: [&str; 4] = [
